@@ -12,6 +12,9 @@ written, every tree is first brought to one canonical spelling. Each rewrite is 
   C4  a temporary that is assigned once and immediately returned is inlined:  t = e; return t   ->   return e
   C5  keyword arguments of a call are ordered by name
   C6  a local that is only ever assigned constants and never read is dropped (`_unused = None`)
+  C8  a counter step written as a re-binding is written as an augmented assignment:  n = n + 1  ->  n += 1  (plain local name, numeric
+      constant step, + or - only: for numbers the two are the same statement)
+  C9  a membership test against a literal list is written against the literal tuple:  x in [a, b]  ->  x in (a, b)
   C7  logging statements (`runLog.debug/extra/info/important/warning/error/header(...)` as a statement) are dropped: no rule
       is about what is logged, and log lines come and go
 """
@@ -50,6 +53,17 @@ class _Canon(ast.NodeTransformer):
             # neither side a numeric constant: one orientation only (a > b  is written  b < a)
             n.left, n.comparators[0] = n.comparators[0], n.left
             n.ops = [_MIRROR[type(n.ops[0])]()]
+        # ---- C9
+        if len(n.ops) == 1 and isinstance(n.ops[0], (ast.In, ast.NotIn)) and isinstance(n.comparators[0], ast.List):
+            n.comparators[0] = ast.copy_location(ast.Tuple(elts=n.comparators[0].elts, ctx=ast.Load()), n.comparators[0])
+        return n
+
+    # ---- C8
+    def visit_Assign(self, n):
+        self.generic_visit(n)
+        if len(n.targets) == 1 and isinstance(n.targets[0], ast.Name) and isinstance(n.value, ast.BinOp) and isinstance(n.value.op, (ast.Add, ast.Sub)) \
+                and isinstance(n.value.left, ast.Name) and n.value.left.id == n.targets[0].id and _num(n.value.right):
+            return ast.copy_location(ast.AugAssign(target=ast.Name(id=n.targets[0].id, ctx=ast.Store()), op=n.value.op, value=n.value.right), n)
         return n
 
     # ---- C5
